@@ -41,6 +41,7 @@ type inputRec struct {
 	Terms []*Term // for strings: bytes
 	Choice int
 	N      int
+	Env    bool
 }
 
 type Violation struct {
